@@ -17,7 +17,7 @@ CODE = ["signac.job._StatePointDict._save (re-key protocol)", "signac.job.Job.st
 BOUNDS = {"state points": "closed universe {a:0|1} x {b absent|0} plus nested {n:{c:0|1}} and list {l:[0|1,1]} variants", "routes": "item set, attribute set, add key, delete key, nested item set, list element set, whole assignment, update_statepoint(overwrite T/F), multi-key update, item set changing only the JSON type (1 -> 1.0, 0 -> False)",
           "destination": "absent / initialised with its own document and file / empty directory / a regular file occupying the destination path; source initialised or a handle only", "handles": "by state point, by id after restart, from iteration; sibling none / copy.copy / deepcopy / pickle round trip",
           "payload": "document {k:1} or none; files f and sub/g or none"}
-OUTSIDE = ["edits that differ only by bool/int type (1 -> True): the synced-collection dependency keeps the ==-equal old value (silent no-op)", "cross-device moves (C11)", "siblings of a moved handle (only the moving handle adopts the destination project)"]
+OUTSIDE = ["edits that differ only by bool/int type (1 -> True): the synced-collection dependency keeps the ==-equal old value (silent no-op)", "cross-device moves (C11)"]
 STUBS = ["MemFS for os/shutil/open/uuid in signac.job, signac.project, signac._utility, synced_collections JSON backend (validated against the real FS by ./vf selftest)",
          "Project objects are built without Project.__init__ (configobj not on MemFS)"]
 ASSUMPTIONS = ["POSIX rename semantics as modelled by MemFS"]
